@@ -1271,8 +1271,8 @@ class Interp:
                     cfr.class_scope = c
                     cache[(c.qual, a)] = self.ev(c.class_attrs[a], cfr)
                 v = cache[(c.qual, a)]
-                if isinstance(v, FuncRef) and isinstance(v.node, ast.Lambda) and inst is not None:
-                    return Bound(inst, v)
+                if isinstance(v, FuncRef) and inst is not None:
+                    return Bound(inst, v)        # a function object stored in the class binds like a method (lambda or closure alike)
                 return v
         return None
 
@@ -2078,6 +2078,8 @@ class Interp:
             return
         if isinstance(o, (Sym, Term)):
             return
+        if isinstance(o, (FuncRef, Bound, Native)) and a in ('__name__', '__qualname__', '__doc__', '__module__', '__wrapped__', '__annotations__', '__dict__'):
+            return          # cosmetic attributes of function objects do not affect what the function computes
         if isinstance(o, ExcV):
             o.__dict__.setdefault('attrs', {})[a] = v
             return
